@@ -19,8 +19,26 @@ CLAIM = dict(
           "exhaustively for several roots, random and ragged sizes, whole boards, board counts) and the Lean "
           "specification predicates evaluated on the implementation's outputs."),
     design="3/C19",
-    note=("int(sqrt(k)) is modelled by the integer square root (equal for k < 2^52). Widths/heights <= 0 and negative "
-          "board counts are modelled (ZeroDivisionError / empty list / ValueError) but outside the property."),
+    note=("int(sqrt(k)) is modelled by the integer square root (equal for k < 2^52 and for the exact squares generated "
+          "above it; board counts beyond what a double holds exactly - e.g. 3a(a-1) with a > 2^54, where the source's "
+          "float sqrt starts the divisor search in the wrong place - are NOT generated). Widths/heights <= 0 and negative "
+          "board counts are modelled (ZeroDivisionError / empty list / ValueError) but outside the property. "
+          "Hardening checklist: (1) kinds - every integer argument also as bool (0/1) and as a member of the IntEnum "
+          "Links (0..5), link as Links / int / bool, big ints around 2^31..2^100 for coordinates, roots, w, h and board "
+          "counts; numpy ints are not generated (rig itself passes Python ints: struct-unpacked sizes and root_chip); "
+          "no parameter is a collection, byte string, hashable identifier or rig object; None is not a legal value of "
+          "root_x/root_y. (2) optional parameters: root_x, root_y of all four spinn5_* functions take non-default "
+          "values, are passed positionally, by keyword, all-keyword, and are omitted (one or both) when 0; "
+          "standard_system_dimensions has none. (3) scale: 1xN, Nx1, 2xN, Nx12 machines with N in the thousands, "
+          "65,537 and 257 wide/high, a 360^2 (600^2) machine, 3*257 / 3*65,537 boards; nothing is recursive. "
+          "(4) every call runs inside a history that starts with a fresh load of rig.links and rig.geometry; repeated "
+          "calls, twins in both orders; there are no objects/classes to alternate other than the generators. "
+          "(5) arguments are ints and results are tuples, so the caller has nothing to edit in place; every result is "
+          "kept and re-checked at the end of its history; the generators of spinn5_eth_coords are consumed lazily, "
+          "two alternately, between other calls, one abandoned. (6) nothing in scope talks to anything that can fail; "
+          "calls that raise (w = 0, board count not a multiple of 3) are followed by normal calls in histories. "
+          "(7) there is no environment / configuration. (8) every call under common.cpu_limit; all model functions are "
+          "total, so not returning on an in-domain input is the finding did-not-return."),
     technique="Lean 4 theorems over a hand-written model + translator for the tables + differential correspondence + Lean spec as oracle")
 
 
@@ -31,70 +49,207 @@ THEOREMS = ["table_shape", "table_cells", "board_has_48_chips", "links_documente
             "local_eth_mem_eth_coords",
             "fpga_table_edges", "fpga_table_numbering", "fpga_link_spec", "fpga_link_iff_leaves_board",
             "fpga_link_on_board", "fpga_link_distinct", "fpga_board_spec",
-            "std_dims_spec", "std_dims_squarest", "std_dims_errors"]
+            "std_dims_spec", "std_dims_squarest", "std_dims_errors", "spec_std_dims_fast_iff"]
 THEOREMS += ['gen_chip_coord', 'gen_local_eth_coord', 'gen_fpga_link']   # translator tie: generated function bodies = model (Props/C19Gen.lean)
 
-RULE = ("(a) every cell of the 12x12 table x 6 links (+ invalid link numbers) for root (0,0) and random roots on 12x12 "
-        "and larger machines; (b) random (w, h, root, x, y) with w,h multiples of 12, ragged, 1 and a few 0, x,y inside, "
-        "on the border, outside and negative; (c) eth_coords for random/ragged/zero sizes and arbitrary (also negative, "
-        "large) roots; (d) whole boards: 48 chips x 6 links of a random board of a random machine; (e) board counts "
-        "0..N and random large ones incl. non-multiples of 3 and negatives.  Non-trivial: root not a multiple of 12 or a "
+RULE = ("Every call is compared with the Lean model and judged by the Lean predicate of its function on the "
+        "implementation's own output; calls run in histories (fresh load of rig.links/rig.geometry, then up to 32 "
+        "consecutive calls; kept results re-checked at the end).  Streams: (a) corpus; every cell of the 12x12 table x "
+        "6 links (+ invalid link numbers) for root (0,0) and random roots on 12x12 and larger machines; (b) random "
+        "(w, h, root, x, y) with w,h multiples of 12, ragged, 1 and a few 0, x,y inside, on the border, outside and "
+        "negative; (c) eth_coords for random/ragged/zero sizes and arbitrary (also negative, large) roots; (d) whole "
+        "boards: 48 chips x 6 links of a random board of a random machine; (e) board counts 0..N and random large ones "
+        "incl. non-multiples of 3 and negatives; half of (b), (c), (e) 'dressed': arguments as bool / Links members, "
+        "roots by keyword / all by keyword / omitted when 0 (tags kind:*, conv:*); (f) big integers 2^31..2^100 "
+        "(tag bigint; board counts judged by SpecStdDimsFast = SpecStdDims, theorem spec_std_dims_fast_iff); (g) scale: "
+        "1xN, Nx1, 2xN, 65,537- and 257-wide machines, 3*65,537 boards; (h) histories: same call three times, twins "
+        "(one aspect changed, or the same chip through another function) in both orders, a raising call followed by "
+        "normal ones, generators of spinn5_eth_coords opened / advanced / finished alternately between other calls and "
+        "one abandoned (tags history, eth_open, eth_pull, eth_finish).  A finding is reported with the single call when "
+        "that fails on its own, else with the history up to it.  Non-trivial: root not a multiple of 12 or a "
         "wrap-around (local/chip), ragged size or root != 0 (eth_coords), a defined FPGA link, a composite number of "
         "triads (dimensions); distinct = distinct canonical JSON of the input")
 
 BOARD = [(x, y) for x in range(8) for y in range(8) if x - y <= 4 and y - x <= 3]   # hand-written, 48 chips
 LATTICE = [(0, 0), (4, 8), (8, 4)]
+BIG = [2 ** 31, 2 ** 32, 2 ** 53 + 1, 2 ** 63, 2 ** 64, 2 ** 100]
+
+# documented parameter order of every function in scope (positional AND keyword conventions are exercised)
+PARAMS = {"local_eth": (("x", "x"), ("y", "y"), ("w", "w"), ("h", "h"), ("rx", "root_x"), ("ry", "root_y")),
+          "chip_coord": (("x", "x"), ("y", "y"), ("rx", "root_x"), ("ry", "root_y")),
+          "fpga_link": (("x", "x"), ("y", "y"), ("link", "link"), ("rx", "root_x"), ("ry", "root_y")),
+          "eth_coords": (("width", "width"), ("height", "height"), ("rx", "root_x"), ("ry", "root_y")),
+          "std_dims": (("n", "num_boards"),)}
+META = ("fn", "enum", "kinds", "conv", "id", "k", "slow")     # fields of a case that are not arguments
+_HANGS = {}        # function -> number of calls that did not return in this run
 
 
 def _exc(e):
     return {"err": type(e).__name__}
 
 
-def impl(case):
-    """run the implementation on one case; canonical JSON result"""
+def _present(case, name, Links):
+    """the argument in the kind the case asks for: plain int, bool (0/1), member of the IntEnum Links (0..5)"""
+    v = case[name]
+    kind = (case.get("kinds") or {}).get(name)
+    if name == "link" and kind is None and case.get("enum", True) and 0 <= v <= 5:
+        kind = "enum"
+    if kind == "bool" and v in (0, 1):
+        return bool(v)
+    if kind == "enum" and 0 <= v <= 5:
+        return Links(v)
+    return v
+
+
+def _call(f, case, Links, tags):
+    """call with the calling convention the case asks for"""
+    fn = case["fn"] if case["fn"] not in ("eth_open",) else "eth_coords"
+    conv = case.get("conv", "pos")
+    params = PARAMS[fn]
+    if conv == "kwall":
+        tags.append("conv:kwall")
+        return f(**{pn: _present(case, cn, Links) for cn, pn in params})
+    req = [(cn, pn) for cn, pn in params if cn not in ("rx", "ry")]
+    args = [_present(case, cn, Links) for cn, pn in req]
+    if len(params) == len(req):
+        tags.append("conv:pos")
+        return f(*args)
+    rx, ry = _present(case, "rx", Links), _present(case, "ry", Links)
+    if conv == "kw":
+        tags.append("conv:kw")
+        return f(*args, root_x=rx, root_y=ry)
+    if conv == "default" and (case["rx"] == 0 or case["ry"] == 0):
+        if case["rx"] == 0 and case["ry"] == 0:
+            tags.append("conv:default-both")
+            return f(*args)
+        if case["ry"] == 0:
+            tags.append("conv:default-root_y")
+            return f(*args, rx)
+        tags.append("conv:default-root_x")
+        return f(*args, root_y=ry)
+    tags.append("conv:pos")
+    return f(*args, rx, ry)
+
+
+def _pair(r):
+    return [int(r[0]), int(r[1])]
+
+
+def _canon(fn, raw):
+    """canonical JSON of a kept raw result (also used to re-check kept results at the end of a history)"""
+    if fn in ("local_eth", "chip_coord", "std_dims", "link_vec"):
+        return _pair(raw)
+    if fn == "fpga_link":
+        return None if raw is None else _pair(raw)
+    if fn in ("eth_coords", "eth_finish"):
+        return [_pair(p) for p in raw]
+    if fn == "fpga_board":
+        return [None if r is None else _pair(r) for r in raw]
+    raise AssertionError(fn)
+
+
+def impl_raw(case, state, tags):
+    """run the implementation on one call of a history; returns the raw result (kept by the caller)"""
     from rig import geometry as g
     from rig.links import Links
     fn = case["fn"]
-    try:
-        if fn == "local_eth":
-            r = g.spinn5_local_eth_coord(case["x"], case["y"], case["w"], case["h"], case["rx"], case["ry"])
-            return {"ok": [int(r[0]), int(r[1])]}
-        if fn == "chip_coord":
-            r = g.spinn5_chip_coord(case["x"], case["y"], case["rx"], case["ry"])
-            return {"ok": [int(r[0]), int(r[1])]}
-        if fn == "fpga_link":
-            l = case["link"]
-            if case.get("enum", True) and 0 <= l <= 5:
-                l = Links(l)
-            r = g.spinn5_fpga_link(case["x"], case["y"], l, case["rx"], case["ry"])
-            return {"ok": None if r is None else [int(r[0]), int(r[1])]}
-        if fn == "eth_coords":
-            return {"ok": [[int(a), int(b)] for a, b in
-                           g.spinn5_eth_coords(case["width"], case["height"], case["rx"], case["ry"])]}
-        if fn == "std_dims":
-            r = g.standard_system_dimensions(case["n"])
-            return {"ok": [int(r[0]), int(r[1])]}
-        if fn == "link_vec":
-            v = Links(case["link"]).to_vector()
-            return {"ok": [int(v[0]), int(v[1])]}
-        if fn == "fpga_board":
-            out = []
-            for bx, by in BOARD:
-                for l in range(6):
-                    r = g.spinn5_fpga_link(case["ex"] + bx, case["ey"] + by, Links(l), case["rx"], case["ry"])
-                    out.append(None if r is None else [int(r[0]), int(r[1])])
-            return {"ok": out}
-        raise AssertionError("unknown fn " + fn)
-    except AssertionError:
-        raise
-    except Exception as e:      # any exception of the implementation is an outcome, not a harness failure
-        return _exc(e)
+    if fn == "local_eth":
+        return _call(g.spinn5_local_eth_coord, case, Links, tags)
+    if fn == "chip_coord":
+        return _call(g.spinn5_chip_coord, case, Links, tags)
+    if fn == "fpga_link":
+        return _call(g.spinn5_fpga_link, case, Links, tags)
+    if fn == "eth_coords":
+        return list(_call(g.spinn5_eth_coords, case, Links, tags))
+    if fn == "std_dims":
+        return _call(g.standard_system_dimensions, case, Links, tags)
+    if fn == "link_vec":
+        return Links(case["link"]).to_vector()
+    if fn == "fpga_board":
+        return [g.spinn5_fpga_link(case["ex"] + bx, case["ey"] + by, Links(l), case["rx"], case["ry"])
+                for bx, by in BOARD for l in range(6)]
+    # the generator returned by spinn5_eth_coords consumed lazily: opened, advanced a few items at a time
+    # between other calls, finished (judged like a plain call) or abandoned
+    if fn == "eth_open":
+        state[case["id"]] = [_call(g.spinn5_eth_coords, case, Links, tags), []]
+        return None
+    if fn == "eth_pull":
+        it, got = state[case["id"]]
+        for _ in range(case["k"]):
+            try:
+                got.append(next(it))
+            except StopIteration:
+                break
+        return None
+    if fn == "eth_finish":
+        it, got = state[case["id"]]
+        got.extend(it)
+        return got
+    raise AssertionError("unknown fn " + fn)
+
+
+def reload_rig():
+    """every history starts from freshly executed modules, so that a replay of the history reproduces
+    whatever module-level state its calls build up"""
+    import importlib
+    import sys
+    import rig.links
+    import rig.geometry
+    importlib.reload(sys.modules["rig.links"])
+    importlib.reload(sys.modules["rig.geometry"])
+
+
+def run_history(calls):
+    """-> (outs, tags, changed): canonical outcome of every call; indices of kept results that changed later"""
+    from harness import common
+    reload_rig()
+    outs, tags, kept, state = [], [], [], {}
+    for i, c in enumerate(calls):
+        try:
+            # a call takes microseconds (the cases marked slow - scale, divisor search of huge board counts -
+            # up to a few tenths of a second): 5 s of CPU time means it did not return; once a function has
+            # done that 6 times the limit is 1 s, after 10 times 0.1 s for its calls not marked slow
+            nh = _HANGS.get(c["fn"], 0)
+            with common.cpu_limit(5 if nh < 6 else 1 if nh < 10 or c.get("slow") else 0.1):
+                raw = impl_raw(c, state, tags)
+            if c["fn"] in ("eth_open", "eth_pull"):
+                outs.append({"ok": None})
+            else:
+                outs.append({"ok": _canon(c["fn"], raw)})
+                kept.append((i, raw))
+        except common.ImplHang as e:
+            _HANGS[c["fn"]] = _HANGS.get(c["fn"], 0) + 1
+            outs.append({"err": "DidNotReturn", "where": str(e)})
+        except AssertionError:
+            raise
+        except (ImportError, SyntaxError):
+            raise
+        except Exception as e:      # any exception of the implementation is an outcome, not a harness failure
+            outs.append(_exc(e))
+    # (c) the caller keeps every result: it must still be what it was when it was returned
+    changed = []
+    for i, raw in kept:
+        try:
+            now = {"ok": _canon(calls[i]["fn"], raw)}
+        except Exception as e:
+            now = _exc(e)
+        if now != outs[i]:
+            changed.append((i, now))
+    return outs, tags, changed
+
+
+def args_of(case):
+    return {k: v for k, v in case.items() if k not in META}
 
 
 def requests(case, out):
     """[(kind, request)] for the Lean driver: model evaluation and spec predicates on the implementation's output"""
     fn = case["fn"]
-    a = {k: v for k, v in case.items() if k not in ("fn", "enum")}
+    if fn in ("eth_open", "eth_pull"):
+        return []
+    if fn == "eth_finish":
+        fn = "eth_coords"
+    a = args_of(case)
     rq = []
     if fn in ("local_eth", "chip_coord", "fpga_link", "eth_coords", "std_dims"):
         rq.append(("model", dict(a, suite="c19", op=fn)))
@@ -114,10 +269,21 @@ def requests(case, out):
     elif fn == "eth_coords" and ok:
         rq.append(("spec", dict(a, suite="c19", op="spec_eth_coords", out=out["ok"])))
     elif fn == "std_dims" and ok and case["n"] >= 0 and case["n"] % 3 == 0:
-        if out["ok"][0] >= 0 and out["ok"][1] >= 0:
-            rq.append(("spec", dict(suite="c19", op="spec_std_dims", n=case["n"], w=out["ok"][0], h=out["ok"][1])))
-        else:
+        w, h = out["ok"]
+        if w < 0 or h < 0:
             rq.append(("specfalse", None))
+        elif case["n"] <= 30000:
+            rq.append(("spec", dict(suite="c19", op="spec_std_dims", n=case["n"], w=w, h=h)))
+        else:
+            # huge counts: the equivalent predicate (theorem spec_std_dims_fast_iff) that scans only between
+            # the reported height and the integer square root; skipped (model comparison only) when that
+            # range is too long to scan
+            import math
+            if math.isqrt(case["n"] // 3) - h // 12 <= 3 * 10 ** 6:
+                rq.append(("fast", None))
+                rq.append(("spec", dict(suite="c19", op="spec_std_dims_fast", n=case["n"], w=w, h=h)))
+            else:
+                rq.append(("skip", None))
     elif fn == "link_vec":
         rq.append(("model", dict(suite="c19", op="link_vec", link=case["link"])))
         rq.append(("spec", dict(suite="c19", op="spec_link_vec", link=case["link"], out=out.get("ok"))))
@@ -136,6 +302,7 @@ def requests(case, out):
 
 KEYS = {"local_eth": "local-eth-not-board-ethernet-chip", "chip_coord": "chip-coord-not-offset-from-ethernet-chip",
         "fpga_link": "fpga-link-not-iff-leaves-board", "eth_coords": "eth-coords-not-lattice-points-in-machine",
+        "eth_finish": "eth-coords-not-lattice-points-in-machine",
         "std_dims": "std-dims-not-squarest-triads", "link_vec": "link-vector-not-documented-direction",
         "fpga_board": "fpga-board-numbers-not-distinct-or-incomplete"}
 
@@ -149,7 +316,7 @@ def in_domain(c):
         return c["n"] >= 0 and c["n"] % 3 == 0
     if fn == "link_vec":
         return 0 <= c["link"] <= 5
-    if fn == "eth_coords":
+    if fn in ("eth_coords", "eth_open", "eth_finish"):
         return c["width"] >= 0 and c["height"] >= 0
     return True
 
@@ -165,70 +332,154 @@ def nontrivial(c, out):
         return c["rx"] % 12 != 0 or c["ry"] % 12 != 0 or wrap
     if fn == "fpga_link":
         return out["ok"] is not None
-    if fn == "eth_coords":
+    if fn in ("eth_coords", "eth_finish"):
         return len(out["ok"]) > 0 and (c["width"] % 12 != 0 or c["height"] % 12 != 0 or c["rx"] != 0 or c["ry"] != 0)
     if fn == "std_dims":
         k = c["n"] // 3
+        if k > 10 ** 7:
+            return c["n"] % 3 == 0
         return c["n"] % 3 == 0 and k >= 4 and any(k % d == 0 for d in range(2, int(k ** 0.5) + 1))
     if fn == "fpga_board":
         return True
     return False
 
 
-def eval_cases(ctx, cases):
-    reqs, idx = [], []
-    outs = []
-    for ci, c in enumerate(cases):
-        out = impl(c)
-        outs.append(out)
-        for kind, r in requests(c, out):
-            if r is None:
-                idx.append((ci, kind, None))
-            else:
-                idx.append((ci, kind, len(reqs)))
-                reqs.append(r)
+def size_of(case):
+    """for preferring small failing inputs"""
+    if case.get("fn") == "history":
+        return (len(case["calls"]), size_of(case["calls"][-1])[1])
+    return (1, sum(abs(v) for v in args_of(case).values() if isinstance(v, int)))
+
+
+class _Rec(object):
+    """stand-in for ctx used when a failing call is re-run on its own: records verdicts, counts nothing"""
+
+    def __init__(self, ctx):
+        self._ctx, self.concrete, self.mismatches, self.traces = ctx, [], [], 0
+
+    def lean(self, reqs):
+        return self._ctx.lean(reqs)
+
+    def violation(self, key, what, case):
+        self.concrete.append((key, what, case))
+
+    def mismatch(self, suite, detail, case):
+        self.mismatches.append((suite, detail, case))
+
+    def tag(self, *a):
+        pass
+
+    def case(self, *a, **k):
+        pass
+
+
+def eval_histories(ctx, hists):
+    """each history: list of calls made one after the other in freshly loaded modules.  Every call is compared
+    with the model and judged by the Lean predicates on its own; what is reported as the failing input is the
+    history up to and including the failing call (reduced to the single call by `finish` if that suffices)."""
+    reqs, idx, results = [], [], []
+    for hi, calls in enumerate(hists):
+        outs, tags, changed = run_history(calls)
+        results.append((outs, tags, changed))
+        for ci, (c, out) in enumerate(zip(calls, outs)):
+            for kind, r in requests(c, out):
+                idx.append((hi, ci, kind, None if r is None else len(reqs)))
+                if r is not None:
+                    reqs.append(r)
     reps = ctx.lean(reqs)
-    per = [[] for _ in cases]
-    for ci, kind, ri in idx:
-        per[ci].append((kind, None if ri is None else reps[ri], None if ri is None else reqs[ri]))
-    for c, out, rs in zip(cases, outs, per):
-        fn = c["fn"]
-        ctx.traces += 1
-        ctx.tag(fn + ("" if "ok" in out else ":" + out["err"]))
-        if "err" in out and in_domain(c):
-            ctx.violation("exception-on-valid-input",
-                          "%s raised %s on an input for which the property demands an answer" % (fn, out["err"]), c)
-        item_i = 0
-        for kind, rep, rq in rs:
-            if isinstance(rep, dict) and "proto_error" in rep:
-                raise RuntimeError("driver protocol error %r on %r" % (rep, rq))
-            if kind == "model":
-                want = out
-                if fn == "eth_coords":
-                    # the order of the generator is not part of the property (only the set, without
-                    # repetition - which the oracle checks on the implementation's list): compare sorted
-                    want = sorted(out["ok"]) if "ok" in out else out
-                    rep = sorted(rep)
-                if fn == "link_vec":
-                    want = out.get("ok")
-                if rep != want:
-                    ctx.mismatch("c19." + fn, "impl=%r model=%r" % (want, rep), c)
-            elif kind == "item":
-                if rep != {"ok": out["ok"][item_i]}:
-                    ctx.mismatch("c19.fpga_link", "board item %d impl=%r model=%r" % (item_i, out["ok"][item_i], rep), c)
-            elif kind == "itemspec":
-                if rep is not True:
-                    ctx.violation(KEYS["fpga_link"],
-                                  "spinn5_fpga_link(%d,%d,link=%d,root=(%d,%d)) = %r: an FPGA link must be reported exactly "
-                                  "when the link leaves the board" % (rq["x"], rq["y"], rq["link"], rq["rx"], rq["ry"], rq["out"]),
-                                  {"fn": "fpga_link", "x": rq["x"], "y": rq["y"], "link": rq["link"],
-                                   "rx": rq["rx"], "ry": rq["ry"]})
-                item_i += 1
-            elif kind in ("spec", "specfalse"):
-                if rep is not True:
-                    ctx.violation(KEYS[fn], "Lean specification %s is false on the implementation's output %r of %r" % (
-                        (rq or {}).get("op", "spec_std_dims"), out, c), c)
-        ctx.case(c, nontrivial(c, out))
+    per = {}
+    for hi, ci, kind, ri in idx:
+        per.setdefault((hi, ci), []).append((kind, None if ri is None else reps[ri], None if ri is None else reqs[ri]))
+    for hi, calls in enumerate(hists):
+        outs, tags, changed = results[hi]
+        ctx.tag(*tags)
+        if len(calls) > 1:
+            ctx.tag("history")
+        for i, now in changed:
+            ctx.violation("result-changed-after-return",
+                          "the result of call %d (%r) was %r when returned and is %r after the later calls of the "
+                          "history" % (i, calls[i], outs[i], now), {"fn": "history", "calls": calls})
+        for ci, (c, out) in enumerate(zip(calls, outs)):
+            fn = c["fn"]
+            where = c if len(calls) == 1 else {"fn": "history", "calls": calls[:ci + 1]}
+            ctx.traces += 1
+            ctx.tag(fn + ("" if "ok" in out else ":" + out["err"]))
+            for name, kind in sorted((c.get("kinds") or {}).items()):
+                ctx.tag("kind:" + kind)
+            if any(isinstance(v, int) and abs(v) >= 2 ** 31 for v in args_of(c).values()):
+                ctx.tag("bigint")
+            if out.get("err") == "DidNotReturn":
+                # every function of the model is total (local_eth_spec, fpga_link_spec, std_dims_spec, ... state
+                # that a result exists): where the property demands an answer, not returning is a failure
+                if in_domain(c):
+                    ctx.violation("did-not-return", "%s did not return: %s" % (fn, out.get("where")), where)
+                else:
+                    ctx.mismatch("c19." + fn, "implementation did not return (%s), the model does" % out.get("where"), where)
+                ctx.case(c, False)
+                continue
+            if "err" in out and in_domain(c):
+                ctx.violation("exception-on-valid-input",
+                              "%s raised %s on an input for which the property demands an answer" % (fn, out["err"]), where)
+            item_i = 0
+            for kind, rep, rq in per.get((hi, ci), []):
+                if isinstance(rep, dict) and "proto_error" in rep:
+                    raise RuntimeError("driver protocol error %r on %r" % (rep, rq))
+                if kind == "skip":
+                    ctx.tag("std_dims:oracle-range-too-long")
+                elif kind == "fast":
+                    ctx.tag("std_dims:fast-oracle")
+                elif kind == "model":
+                    want = out
+                    if fn in ("eth_coords", "eth_finish"):
+                        # the order of the generator is not part of the property (only the set, without
+                        # repetition - which the oracle checks on the implementation's list): compare sorted
+                        want = sorted(out["ok"]) if "ok" in out else out
+                        rep = sorted(rep)
+                    if fn == "link_vec":
+                        want = out.get("ok")
+                    if rep != want:
+                        ctx.mismatch("c19." + fn, "impl=%r model=%r" % (want, rep), where)
+                elif kind == "item":
+                    if rep != {"ok": out["ok"][item_i]}:
+                        ctx.mismatch("c19.fpga_link", "board item %d impl=%r model=%r" % (item_i, out["ok"][item_i], rep), where)
+                elif kind == "itemspec":
+                    if rep is not True:
+                        single = {"fn": "fpga_link", "x": rq["x"], "y": rq["y"], "link": rq["link"],
+                                  "rx": rq["rx"], "ry": rq["ry"]}
+                        ctx.violation(KEYS["fpga_link"],
+                                      "spinn5_fpga_link(%d,%d,link=%d,root=(%d,%d)) = %r: an FPGA link must be reported exactly "
+                                      "when the link leaves the board" % (rq["x"], rq["y"], rq["link"], rq["rx"], rq["ry"], rq["out"]),
+                                      single if len(calls) == 1 else {"fn": "history", "calls": calls[:ci] + [single]})
+                    item_i += 1
+                elif kind in ("spec", "specfalse"):
+                    if rep is not True:
+                        ctx.violation(KEYS[fn], "Lean specification %s is false on the implementation's output %r of %r" % (
+                            (rq or {}).get("op", "spec_std_dims"), out, c), where)
+            ctx.case(c, nontrivial(c, out))
+
+
+def finish(ctx):
+    """keep, per class of finding, the smallest failing input; a history is reduced to its last call when that
+    call fails in the same way on its own (in freshly loaded modules) - otherwise the history is the input"""
+    best = {}
+    for key, what, case in ctx.concrete:
+        if key not in best or size_of(case) < size_of(best[key][1]):
+            best[key] = (what, case)
+    out = []
+    for key, (what, case) in sorted(best.items()):
+        if case.get("fn") == "history" and len(case["calls"]) == 1:
+            case = case["calls"][0]
+        if case.get("fn") == "history" and len(case["calls"]) > 1 and key != "result-changed-after-return":
+            rec = _Rec(ctx)
+            eval_histories(rec, [[case["calls"][-1]]])
+            alone = [t for t in rec.concrete if t[0] == key]
+            if alone:
+                what, case = alone[0][1], alone[0][2]
+            else:
+                what += "  [only after the earlier calls of this history]"
+                ctx.tag("finding-needs-history")
+        out.append((key, what, case))
+    ctx.concrete[:] = out
 
 
 # ----------------------------------------------------------------------------- generators
@@ -350,8 +601,8 @@ def link_cases(ctx):
     return [{"fn": "link_vec", "link": l} for l in range(6)]
 
 
-def corpus_cases():
-    """corpus/C19/*.json: {"cases": [...]} or a replay file {"case": {...}}; run first"""
+def corpus_cases(histories=False):
+    """corpus/C19/*.json: {"cases": [...]} or a replay file {"case": {...}}; run first (histories separately)"""
     import glob
     import json
     import os
@@ -360,28 +611,177 @@ def corpus_cases():
     for f in sorted(glob.glob(os.path.join(d, "*.json"))):
         j = json.load(open(f))
         out += j.get("cases", []) + ([j["case"]] if "case" in j else [])
-    return out
+    return [c for c in out if (c.get("fn") == "history") == histories]
+
+
+
+
+# --- argument kinds, calling conventions, big integers, scale, histories (general streams)
+
+def dress(rng, c):
+    """the same call with its integer arguments presented in other legal kinds (bool for 0/1, members of the
+    IntEnum Links for 0..5) and in another calling convention; what is compared and judged does not change"""
+    c = dict(c)
+    if c["fn"] not in PARAMS:
+        return c
+    kinds = {}
+    for cn, pn in PARAMS[c["fn"]]:
+        v = c[cn]
+        r = rng.random()
+        if v in (0, 1) and r < 0.35:
+            kinds[cn] = "bool"
+        elif 0 <= v <= 5 and r < 0.5 and cn != "link":
+            kinds[cn] = "enum"
+        elif cn == "link" and v in (0, 1) and r < 0.5:
+            kinds[cn] = "bool"
+    if kinds:
+        c["kinds"] = kinds
+    c["conv"] = rng.choice(["pos", "kw", "kwall", "default", "default"])
+    return c
+
+
+def big(rng):
+    b = rng.choice(BIG) + rng.randrange(-13, 14)
+    return -b if rng.random() < 0.25 else b
+
+
+def bigint_cases(ctx, n):
+    """unbounded quantities around 2**31 ... 2**100: coordinates, roots, widths and heights (multiples of 12 and
+    ragged), board counts (only those whose triad count a double holds exactly, see CLAIM.note)"""
+    rng = ctx.rng
+    cases = []
+    for _ in range(n):
+        w = rng.choice([12, 24, 96, 8, 37, 12 * abs(big(rng)), abs(big(rng))])
+        h = rng.choice([12, 36, 7, 12 * abs(big(rng)), abs(big(rng))])
+        rx, ry = rng.choice([(0, 0), (big(rng), big(rng)), (rng.randrange(48), big(rng)), (big(rng), rng.randrange(48))])
+        x = rng.choice([big(rng), rng.randrange(100), rx + rng.randrange(-20, 20)])
+        y = rng.choice([big(rng), rng.randrange(100), ry + rng.randrange(-20, 20)])
+        base = {"x": x, "y": y, "rx": rx, "ry": ry}
+        cases.append(dict(base, fn="local_eth", w=w, h=h))
+        cases.append(dict(base, fn="chip_coord"))
+        cases.append(dict(base, fn="fpga_link", link=rng.randrange(6)))
+        cases.append({"fn": "eth_coords", "width": rng.choice([12, 24, 8, 17]), "height": rng.choice([12, 36, 8, 5]),
+                      "rx": big(rng), "ry": big(rng)})
+    for j in (16, 26, 32, 50):
+        cases.append({"fn": "std_dims", "n": 3 * 4 ** j})             # 2**32, 2**52, 2**64, 2**100 triads
+    cases.append({"fn": "std_dims", "n": 3 * 2 ** 31})
+    cases.append({"fn": "std_dims", "n": 2 ** 100})                  # not a multiple of 3
+    cases.append({"fn": "std_dims", "n": -3 * 2 ** 64})
+    for _ in range(max(n // 4, 4)):
+        a = rng.randrange(2 ** 15, 2 ** 26)
+        cases.append({"fn": "std_dims", "n": 3 * a * (a + rng.randrange(0, 40))})   # < 2**53, nearly square
+    for c in cases:
+        if c["fn"] == "std_dims":
+            c["slow"] = True
+    return cases
+
+
+def scale_cases(ctx):
+    """a handful far beyond the usual size: 1 x N, N x 1, 2 x N machines, 65,537 and 257 of what is counted"""
+    rng = ctx.rng
+    N = rng.choice([2999, 5000, 6001])
+    cases = []
+    for width, height in [(1, N), (N, 1), (2, N), (N, 12), (65537, 1), (1, 65537), (257, 257),
+                          (ctx.scale(360, 600), ctx.scale(360, 600))]:
+        rx, ry = rnd_root(rng)
+        cases.append({"fn": "eth_coords", "width": width, "height": height, "rx": rx, "ry": ry, "slow": True})
+        x, y = rng.randrange(width), rng.randrange(height)
+        cases.append({"fn": "local_eth", "x": x, "y": y, "w": width, "h": height, "rx": rx, "ry": ry})
+        cases.append({"fn": "fpga_link", "x": x, "y": y, "link": rng.randrange(6), "rx": rx, "ry": ry})
+    for n in (3 * 257, 3 * 65537, 3 * 65536, 3 * 65535, 3 * 1000003):
+        cases.append({"fn": "std_dims", "n": n, "slow": True})
+    return cases
+
+
+def twin(rng, c):
+    """equal to c in all but one aspect"""
+    t = dict(c)
+    fn = c["fn"]
+    if fn == "std_dims":
+        t["n"] = c["n"] + rng.choice([3, -3, 1, 2 * c["n"]])
+        return t
+    fields = [k for k in args_of(c) if k != "id"]
+    r = rng.random()
+    if r < 0.25 and fn in ("local_eth", "chip_coord", "fpga_link"):
+        # the same chip asked through another function
+        fn2 = rng.choice([f for f in ("local_eth", "chip_coord", "fpga_link") if f != fn])
+        t = {"fn": fn2, "x": c["x"], "y": c["y"], "rx": c["rx"], "ry": c["ry"]}
+        if fn2 == "local_eth":
+            t.update(w=c.get("w", 12 * rng.randrange(1, 5)), h=c.get("h", 12 * rng.randrange(1, 5)))
+        if fn2 == "fpga_link":
+            t["link"] = c.get("link", rng.randrange(6))
+        return t
+    f = rng.choice(fields)
+    if f == "link":
+        t[f] = (c[f] + rng.randrange(1, 6)) % 6
+    elif f in ("w", "h", "width", "height"):
+        t[f] = max(c[f] + rng.choice([-12, 12, 1, -1, 24, c[f]]), 1)
+    else:
+        t[f] = c[f] + rng.choice([1, -1, 4, 8, 12, -12])
+    return t
+
+
+def history_cases(ctx, n):
+    """several calls in ONE process after a fresh load of the modules: the same call repeated, twins in both
+    orders, a failing call (w = 0 / a board count that is not a multiple of 3) followed by normal ones, and the
+    generators of spinn5_eth_coords consumed lazily - two of them alternately, between other calls, one abandoned"""
+    rng = ctx.rng
+    hists = []
+    pool = random_cells(ctx, n) + eth_cases(ctx, max(n // 3, 4), 48) + dims_cases(ctx, 0, max(n // 3, 4))
+    for _ in range(n):
+        c = dress(rng, rng.choice(pool))
+        r = rng.random()
+        if r < 0.2:
+            hists.append([c, dict(c), dict(c)])
+        elif r < 0.6:
+            t = dress(rng, twin(rng, c))
+            hists.append(rng.choice([[c, t, c], [t, c, t], [c, t, t, c]]))
+        elif r < 0.7:
+            bad = rng.choice([{"fn": "local_eth", "x": 1, "y": 2, "w": 0, "h": 12, "rx": 0, "ry": 0},
+                              {"fn": "local_eth", "x": 1, "y": 2, "w": 12, "h": 0, "rx": 3, "ry": 4},
+                              {"fn": "std_dims", "n": rng.choice([2, 4, 5, -3, -1])}])
+            hists.append([c, bad, c, dress(rng, twin(rng, c))])
+        else:
+            a, b, ab = [dict(rng.choice([p for p in pool if p["fn"] == "eth_coords"])) for _ in range(3)]
+            if rng.random() < 0.5:
+                b = twin(rng, a)
+            other = [dress(rng, rng.choice(pool)) for _ in range(3)]
+            h = [dict(dress(rng, a), fn="eth_open", id=0), dict(fn="eth_pull", id=0, k=rng.randrange(1, 4)),
+                 dict(dress(rng, b), fn="eth_open", id=1), dict(fn="eth_pull", id=1, k=rng.randrange(0, 3)),
+                 dict(dress(rng, ab), fn="eth_open", id=2), dict(fn="eth_pull", id=2, k=1),      # abandoned
+                 other[0], dict(fn="eth_pull", id=0, k=rng.randrange(0, 5)), other[1],
+                 dict(b, fn="eth_finish", id=1), other[2], dict(a, fn="eth_finish", id=0)]
+            hists.append(h)
+    return hists
+
+
+def chunks(cases, n=32):
+    """plain cases also run as histories (consecutive calls after one fresh load of the modules)"""
+    return [cases[i:i + n] for i in range(0, len(cases), n)]
 
 
 def run(ctx):
     ctx.extra["rule"] = RULE
     ctx.assumptions += [
-        "int(sqrt(k)) equals the integer square root (true for k < 2^52; board counts generated are < 10^6)",
+        "int(sqrt(k)) equals the integer square root (true for k < 2^52 and for the exact squares generated above it)",
         "coordinates, sizes and roots are Python ints (unbounded); numpy is used only to index the 12x12 table",
         "the property is claimed for widths/heights >= 1 (local Ethernet chip), >= 0 (Ethernet list) and board "
         "counts that are non-negative multiples of 3; other inputs are compared with the model only"]
     rng = ctx.rng
-    big = ctx.extended
-    roots = [(0, 0)] + [rnd_root(rng) for _ in range(ctx.scale(3, 24) * (4 if big else 1))]
+    big_ = ctx.extended
+    roots = [(0, 0)] + [rnd_root(rng) for _ in range(ctx.scale(3, 24) * (4 if big_ else 1))]
     sizes = [(12, 12), (12 * rng.randrange(2, 6), 12 * rng.randrange(2, 6))]
     if not ctx.quick:
         sizes += [(24, 12), (rng.randrange(13, 60), rng.randrange(13, 60))]
     cases = corpus_cases() + link_cases(ctx)
     cases += exhaustive_cells(ctx, roots, sizes)
-    cases += random_cells(ctx, ctx.scale(2000, 40000) * (4 if big else 1))
-    cases += eth_cases(ctx, ctx.scale(300, 3000) * (4 if big else 1), ctx.scale(60, 96))
-    cases += board_cases(ctx, ctx.scale(20, 300) * (4 if big else 1))
-    cases += dims_cases(ctx, ctx.scale(400, 3000), ctx.scale(300, 5000) * (4 if big else 1))
+    # half of the random cells / lists / board counts in other argument kinds and calling conventions
+    rc = random_cells(ctx, ctx.scale(2000, 40000) * (4 if big_ else 1))
+    rc += eth_cases(ctx, ctx.scale(300, 3000) * (4 if big_ else 1), ctx.scale(60, 96))
+    rc += dims_cases(ctx, ctx.scale(400, 3000), ctx.scale(300, 5000) * (4 if big_ else 1))
+    cases += [dress(rng, c) if i % 2 else c for i, c in enumerate(rc)]
+    cases += board_cases(ctx, ctx.scale(20, 300) * (4 if big_ else 1))
+    cases += [dress(rng, c) for c in bigint_cases(ctx, ctx.scale(60, 1000))]
     if not ctx.quick:
         # every width and height up to 48 (ragged and exact) with a few roots each
         for width in range(0, 49):
@@ -389,14 +789,26 @@ def run(ctx):
                 for _ in range(2):
                     cases.append({"fn": "eth_coords", "width": width, "height": height,
                                   "rx": rng.randrange(24), "ry": rng.randrange(24)})
+    hists = [h["calls"] if h.get("fn") == "history" else [h] for h in corpus_cases(True)]
+    hists += chunks(cases) + [[c] for c in scale_cases(ctx)]
+    hists += history_cases(ctx, ctx.scale(400, 6000) * (4 if big_ else 1))
     ctx.exhaustive = True   # the finite part (144 cells x 6 links, 48 board chips x 6 links) is enumerated completely
-    for i in range(0, len(cases), 4000):
-        eval_cases(ctx, cases[i:i + 4000])
-    # report the smallest failing input of each class (conclude() keeps the first per key)
-    ctx.concrete.sort(key=lambda t: sum(abs(v) for v in t[2].values() if isinstance(v, int) and not isinstance(v, bool)))
+    batch, size = [], 0
+    for h in hists:
+        batch.append(h)
+        size += len(h)
+        if size >= 4000:
+            eval_histories(ctx, batch)
+            batch, size = [], 0
+    eval_histories(ctx, batch)
+    finish(ctx)
 
 
 def replay(ctx, payload):
     ctx.extra["rule"] = RULE
-    eval_cases(ctx, [payload["case"]])
+    c = payload["case"]
+    eval_histories(ctx, [c["calls"] if c.get("fn") == "history" else [c]])
+    finish(ctx)
+
+
 THEOREMS += ['gen_eth_coords', 'gen_std_dims']   # translator tie, second round (Props/C19Gen.lean)
